@@ -144,3 +144,6 @@ func EnvFor(r *R, m *Mentions, emptyStore bool) *model.Env {
 	}
 	return env
 }
+
+// PickEnt exposes the biased entity choice.
+func (m *Mentions) PickEnt(r *R) model.Val { return m.pickEnt(r) }
